@@ -59,7 +59,7 @@ func DefaultHandleRecovery(c Context, _ any) {
 
 func recovery(logger *slog.Logger, c Context, handle RecoveryFunc) {
 	if err := recover(); err != nil {
-		if e, ok := err.(error); ok && errors.Is(e, http.ErrAbortHandler) {
+		if e, ok := err.(error); ok && safely(false, func() bool { return errors.Is(e, http.ErrAbortHandler) }) {
 			panic(e)
 		}
 
@@ -99,7 +99,7 @@ func recovery(logger *slog.Logger, c Context, handle RecoveryFunc) {
 
 		var errAttr slog.Attr
 		if e, ok := err.(error); ok {
-			errAttr = slog.String("error", e.Error())
+			errAttr = slog.String("error", safely(fmt.Sprintf("%T(panicking Error method)", e), e.Error))
 		} else {
 			errAttr = slog.Any("error", err)
 		}
@@ -116,10 +116,21 @@ func recovery(logger *slog.Logger, c Context, handle RecoveryFunc) {
 			errAttr,
 		)
 
-		if !c.Writer().Written() && !connIsBroken(err) {
+		if !c.Writer().Written() && !safely(false, func() bool { return connIsBroken(err) }) {
 			handle(c, err)
 		}
 	}
+}
+
+// safely returns the result of fn, or fallback when fn panics. The methods of a recovered panic value (Error, Is,
+// Unwrap) may panic themselves, typically on a typed nil pointer, and that second panic must not escape the recovery.
+func safely[T any](fallback T, fn func() T) (v T) {
+	defer func() {
+		if recover() != nil {
+			v = fallback
+		}
+	}()
+	return fn()
 }
 
 func connIsBroken(err any) bool {
